@@ -27,7 +27,6 @@ import conssim
 from c05 import member_clients
 from common import Check, parse_coq_value, parse_eval_outputs
 
-DEAD = 999          # client name used for a parked request whose connection no live request owns
 RUNS = []           # (scenarios, results) recorded from conssim.run_scenarios while c06.run executes
 _orig_run_scenarios = conssim.run_scenarios
 
@@ -116,7 +115,7 @@ class Projection:
                 and not ms.get("closing") and not ms.get("coord_task_done")
             if not ms.get("group"):
                 members.append(dict(name=cname(name), live=False, id=0, gen=0, ph="PIdle", rejoin=False, ck="CkNone",
-                                    hb=False, inbox=None, hbin=None, cmin=None))
+                                    hb=False, wait=0, inbox=None, hbin=None, cmin=None))
                 continue
             infl = {}
             for api, q in (ms.get("inflight") or {}).items():
@@ -169,19 +168,10 @@ class Projection:
             node = ms["node"]
             ck = "CkNone" if node is None else ("CkOk" if node == g["coordinator"] else "CkStale")
             members.append(dict(name=cname(name), live=live, id=self.rk(ms["member"]), gen=max(ms["gen"] or 0, 0), ph=ph,
-                                rejoin=rejoin, ck=ck, hb=bool(ms["hb"]) or main == "Assigned", inbox=inbox, hbin=hbin,
-                                cmin=cmin, _main=main))
-        ents = []
-        for mid in sorted(g["members"], key=self.rk):
-            m = g["members"][mid]
-            jp = sp = None
-            if m["join"]:
-                owner = next((c for c, x in waiting_join.items() if x == mid), None)
-                jp = cname(owner) if owner else DEAD
-            if m["sync"]:
-                owner = next((c for c, x in waiting_sync.items() if x == mid), None)
-                sp = cname(owner) if owner else DEAD
-            ents.append((self.rk(mid), jp, sp))
+                                rejoin=rejoin, ck=ck, hb=bool(ms["hb"]) or main == "Assigned",
+                                wait=self.rk(waiting_join.get(name)), inbox=inbox, hbin=hbin, cmin=cmin, _main=main))
+        ents = [(self.rk(mid), bool(g["members"][mid]["join"]), bool(g["members"][mid]["sync"]))
+                for mid in sorted(g["members"], key=self.rk)]
         coord = dict(gen=max(g["generation"], 0), st=STATE[g["state"]], ents=ents,
                      pend=[self.rk(x) for x in g["pending"]], leader=self.rk(g["leader"]))
         return coord, members
@@ -248,7 +238,8 @@ def coq_opt_nat(x):
 
 
 def coq_state(coord, members):
-    ents = "; ".join(f"mkE {i} {coq_opt_nat(jp)} {coq_opt_nat(sp)}" for i, jp, sp in coord["ents"])
+    bb = lambda x: "true" if x else "false"  # noqa: E731
+    ents = "; ".join(f"mkE {i} {bb(jp)} {bb(sp)}" for i, jp, sp in coord["ents"])
     c = (f"(mkC {coord['gen']} {coord['st']} [{ents}] [{'; '.join(map(str, coord['pend']))}] {coord['leader']})")
     ms = []
     for m in members:
@@ -262,7 +253,7 @@ def coq_state(coord, members):
         oz = lambda x: "None" if x is None else f"(Some {zc(x)})"  # noqa: E731
         b = lambda x: "true" if x else "false"  # noqa: E731
         ms.append(f"mkM {m['name']} {b(m['live'])} {m['id']} {m['gen']} {m['ph']} {b(m['rejoin'])} {m['ck']} "
-                  f"{b(m['hb'])} {inbox} {oz(m['hbin'])} {oz(m['cmin'])}")
+                  f"{b(m['hb'])} {m.get('wait', 0)} {inbox} {oz(m['hbin'])} {oz(m['cmin'])}")
     return f"(mkS {c} [{'; '.join(ms)}])"
 
 
